@@ -190,8 +190,10 @@ WVisitFields(b, w, li, a, k) ==
 \* bl: carried wire block length of an entry; -1 for the message (read from its header)
 WVisitLevel(b, w, li, a, bl) ==
   LET wf == WVisitFields(b, w, li, a, 1)
-      any == Len(LFields[li]) > 0 \/ NG(li) > 0 \/ ND(li) > 0
-      rb == IF bl < 0 /\ any THEN RootBL(b, wf) ELSE [w |-> wf, v |-> IF bl < 0 THEN 0 ELSE bl]
+      \* a message always needs its wire blockLength: the last field, the first group /
+      \* data member or - without any such member - the visit itself moves the cursor to
+      \* the end of the block (C19: a complete visit ends at the end of the view)
+      rb == IF bl < 0 THEN RootBL(b, wf) ELSE [w |-> wf, v |-> bl]
       rg == WVisitGroups(b, rb.w, li, a, 1, a + rb.v)
   IN WVisitDatas(b, rg.w, li, a, 1, rg.e)
 WVisitGroups(b, w, li, a, g, pos) ==
@@ -379,7 +381,14 @@ DataOps(b, li, ip, inst, d) ==
           <<Mk("view-obtain", "d_addr", li, ip, name, <<>>, <<>>, D.w, TRUE, FALSE, da),
             Mk("size-bytes", "d_size_bytes", li, ip, name, <<>>, <<>>, P(D.w), TRUE, FALSE, da),
             O("d_size", <<>>, <<>>, P(D.w), TRUE, FALSE)>>
-          \o (IF sz >= Big THEN <<>>
+          \* beyond Big (the maxima of 32 / 64-bit prefixes): element access whose address
+          \* does not depend on the size - prefix + size() is beyond every view, so an
+          \* element outside the view must be reported (prefix + size() must not wrap)
+          \o (IF sz >= Big
+              THEN <<O("d_at", <<0>>, <<>>, Whole(E(D.w, 0, 1), sz), TRUE, FALSE),
+                     O("d_at", <<50>>, <<>>, Whole(E(D.w, 50, 1), sz), TRUE, FALSE),
+                     O("d_front", <<>>, <<>>, Whole(E(D.w, 0, 1), sz), TRUE, FALSE),
+                     O("d_data", <<>>, <<>>, Whole(D.w, sz), TRUE, FALSE)>>
               ELSE <<O("d_at", <<sz - 1>>, <<>>, Whole(E(D.w, sz - 1, 1), sz), TRUE, FALSE),
                      O("d_front", <<>>, <<>>, Whole(E(D.w, 0, 1), sz), TRUE, FALSE),
                      O("d_back", <<>>, <<>>, Whole(E(P(D.w), sz - 1, 1), sz), TRUE, FALSE),
@@ -566,7 +575,9 @@ HostileAll(s) ==
                 lw == LLenW[insts[i].li][d]
                 at == V0 + DenDataAddr(MI, s, insts[i].li, insts[i].ip, insts[i].a, d)
             IN H("dataLen", at, lw, len, <<len + 1, len + 5, Fit(lw, 280)>>)
-               \o (IF lw <= 2 THEN H("dataLenMax", at, lw, len, <<IF lw = 1 THEN 255 ELSE 65535>>) ELSE <<>>)])])
+               \* the maximum of the length type; for 32 / 64-bit prefixes it is no TLC
+               \* integer: val = -1 stands for "every digit 255" (KInit writes the digits)
+               \o H("dataLenMax", at, lw, len, <<IF lw = 1 THEN 255 ELSE IF lw = 2 THEN 65535 ELSE -1>>)])])
 
 Image(s) == Overlay(Region(s), MsgImage(MI, s), V0)
 Full(s) == Len(MsgImage(MI, s))
@@ -589,7 +600,9 @@ KInit ==
          /\ hvi = j
          /\ hv = IF j = 0 THEN NoHv ELSE hs[j]
          /\ \E b0 \in {IF j = 0 THEN Image(sh)
-                       ELSE Put(Image(sh), hs[j].at, Wire(FromNat(hs[j].val, hs[j].w)))} :
+                       ELSE Put(Image(sh), hs[j].at,
+                                IF hs[j].val = -1 THEN [i \in 1 .. hs[j].w |-> 255]
+                                ELSE Wire(FromNat(hs[j].val, hs[j].w)))} :
               /\ buf = b0
               /\ \E t \in {OpTable(b0, sh)} :
                    /\ ctab = t
